@@ -38,71 +38,83 @@ func c09Unfolded(f expr.Expr) string {
 	return bad
 }
 
+var colC09 *ev.Collector
+
+// propC09 is the property of C09; it is shared by the rapid test and the native
+// fuzz target.
+func propC09(t *rapid.T) {
+	col := colC09
+	col.Case()
+	cfg := irsem.GenCfg{MaxDepth: rapid.IntRange(1, 5).Draw(t, "depth"), GadgetProb: 25}
+	cfg.ConstOnly = rapid.IntRange(0, 9).Draw(t, "constOnly") < 3
+	e := irsem.GenExpr(t, cfg)
+	before := irsem.String(e)
+
+	var f expr.Expr
+	if msg := catch(func() { f = exprtransform.ConstFold(e) }); msg != "" {
+		t.Fatalf("ConstFold(%s): %s", before, msg)
+	}
+	if after := irsem.String(e); after != before {
+		t.Fatalf("ConstFold modified its argument: %s -> %s", before, after)
+	}
+	if f.Width() != e.Width() {
+		t.Fatalf("ConstFold(%s) = %s changes width %d -> %d", before, irsem.String(f), e.Width(), f.Width())
+	}
+	for i := 0; i < 3; i++ {
+		env := irsem.NewHashEnv(drawEnvSeed(t, "env"))
+		want, got := irsem.Eval(e, env), irsem.Eval(f, env)
+		if want.Cmp(got) != 0 {
+			t.Fatalf("ConstFold changes the value under valuation seed %d:\n  e = %s = %x\n  f = %s = %x",
+				env.Seed, before, want, irsem.String(f), got)
+		}
+	}
+	if !irsem.HasLoad(e) {
+		if _, ok := f.(expr.Const); !ok {
+			t.Fatalf("constant-only expression %s folds to non-constant %s", before, irsem.String(f))
+		}
+	}
+	if bad := c09Unfolded(f); bad != "" {
+		t.Fatalf("ConstFold(%s) = %s still contains an all-constant operation %s", before, irsem.String(f), bad)
+	}
+	var ff expr.Expr
+	if msg := catch(func() { ff = exprtransform.ConstFold(f) }); msg != "" {
+		t.Fatalf("ConstFold(ConstFold(%s)): %s", before, msg)
+	}
+	if !exprtransform.Equal(ff, f) || irsem.String(ff) != irsem.String(f) {
+		t.Fatalf("folding is not idempotent: %s -> %s -> %s", before, irsem.String(f), irsem.String(ff))
+	}
+
+	changed := irsem.String(f) != before
+	switch {
+	case !irsem.HasLoad(e):
+		col.Class("const-only")
+	case changed:
+		col.Class("loads/changed")
+		col.Nontrivial(before)
+	default:
+		col.Class("loads/unchanged")
+	}
+	col.Class(fmt.Sprintf("depth%d", cfg.MaxDepth))
+	if col.WantSample() {
+		col.Sample(map[string]string{"expr": before, "folded": irsem.String(f)})
+	} else {
+		col.SkipSample()
+	}
+}
+
 func TestC09(t *testing.T) {
-	col := ev.New("C09", "rapid: expression trees of depth <= 5 over all six binary operators, Less, register and "+
+	colC09 = ev.New("C09", "rapid: expression trees of depth <= 5 over all six binary operators, Less, register and "+
 		"memory loads (address sub-expressions), constants, widths 1..255 with deliberately mismatched parent/child "+
 		"widths and randomly inserted width gadgets and gadget look-alikes; 30% constant-only trees; each tree is folded "+
 		"and compared with the original under 3 hash-defined valuations by an independent math/big evaluator. "+
 		"non-trivial = folding changed the tree and the tree contains a load (value comparison is not vacuous); "+
 		"distinct by structural rendering of the tree")
+	col := colC09
 	defer col.Flush()
 
-	rapid.Check(t, func(t *rapid.T) {
-		col.Case()
-		cfg := irsem.GenCfg{MaxDepth: rapid.IntRange(1, 5).Draw(t, "depth"), GadgetProb: 25}
-		cfg.ConstOnly = rapid.IntRange(0, 9).Draw(t, "constOnly") < 3
-		e := irsem.GenExpr(t, cfg)
-		before := irsem.String(e)
-
-		var f expr.Expr
-		if msg := catch(func() { f = exprtransform.ConstFold(e) }); msg != "" {
-			t.Fatalf("ConstFold(%s): %s", before, msg)
-		}
-		if after := irsem.String(e); after != before {
-			t.Fatalf("ConstFold modified its argument: %s -> %s", before, after)
-		}
-		if f.Width() != e.Width() {
-			t.Fatalf("ConstFold(%s) = %s changes width %d -> %d", before, irsem.String(f), e.Width(), f.Width())
-		}
-		for i := 0; i < 3; i++ {
-			env := irsem.NewHashEnv(drawEnvSeed(t, "env"))
-			want, got := irsem.Eval(e, env), irsem.Eval(f, env)
-			if want.Cmp(got) != 0 {
-				t.Fatalf("ConstFold changes the value under valuation seed %d:\n  e = %s = %x\n  f = %s = %x",
-					env.Seed, before, want, irsem.String(f), got)
-			}
-		}
-		if !irsem.HasLoad(e) {
-			if _, ok := f.(expr.Const); !ok {
-				t.Fatalf("constant-only expression %s folds to non-constant %s", before, irsem.String(f))
-			}
-		}
-		if bad := c09Unfolded(f); bad != "" {
-			t.Fatalf("ConstFold(%s) = %s still contains an all-constant operation %s", before, irsem.String(f), bad)
-		}
-		var ff expr.Expr
-		if msg := catch(func() { ff = exprtransform.ConstFold(f) }); msg != "" {
-			t.Fatalf("ConstFold(ConstFold(%s)): %s", before, msg)
-		}
-		if !exprtransform.Equal(ff, f) || irsem.String(ff) != irsem.String(f) {
-			t.Fatalf("folding is not idempotent: %s -> %s -> %s", before, irsem.String(f), irsem.String(ff))
-		}
-
-		changed := irsem.String(f) != before
-		switch {
-		case !irsem.HasLoad(e):
-			col.Class("const-only")
-		case changed:
-			col.Class("loads/changed")
-			col.Nontrivial(before)
-		default:
-			col.Class("loads/unchanged")
-		}
-		col.Class(fmt.Sprintf("depth%d", cfg.MaxDepth))
-		if col.WantSample() {
-			col.Sample(map[string]string{"expr": before, "folded": irsem.String(f)})
-		} else {
-			col.SkipSample()
-		}
-	})
+	rapid.Check(t, propC09)
 }
+
+// FuzzC09 drives the same property with Go's coverage-guided fuzzer (thorough
+// tier only; see DESIGN.md).
+func FuzzC09(f *testing.F) { f.Fuzz(rapid.MakeFuzz(propC09)) }
